@@ -15,6 +15,8 @@ THEOREMS = [
     "Rva.operate_add", "Rva.operate_sll", "Rva.operate_sra", "Rva.operate_mulhu",
     "Rva.operate_div", "Rva.operate_rem",
     "Rva.pseudoRR_meaning", "Rva.pseudoBZ_meaning", "Rva.pseudoB2_meaning",
+    "Rva.decode_arith", "Rva.decode_iarith", "Rva.decode_branch", "Rva.decode_upper", "Rva.decode_csr",
+    "Rva.decode_csri", "Rva.decode_load", "Rva.decode_store",
 ]
 
 OPS = "add and or sll slt sltu sra srl sub xor mul mulh mulhsu mulhu div divu rem remu".split()
@@ -270,7 +272,7 @@ def check_decode(line, kind, inst, fields):
 
 def run(res, tier, seed):
     rng = random.Random(seed)
-    proof_ok = proof_stage(res, "Rva.Proofs.C08b", THEOREMS, extra_modules=["Rva.Proofs.C08", "Rva.Proofs.Tables"])
+    proof_ok = proof_stage(res, "Rva.Proofs.C08c", THEOREMS, extra_modules=["Rva.Proofs.C08", "Rva.Proofs.C08b", "Rva.Proofs.Tables"])
     extra_first = None
     # --- decoding and pseudo-expansion against the manual (all mnemonics x forms)
     dcases = decode_cases(rng)
